@@ -930,7 +930,9 @@ class AstToCfg(ast.NodeVisitor):
       self.visit(stmt)
     # The orelse is an optional continuation of the body.
     if node.orelse:
-      block_representative = node.orelse[0]
+      # Note: the key must differ from the first statement of the block, which
+      # may itself open a conditional section (e.g. when it is an if statement).
+      block_representative = (node, 'orelse')
       self.builder.enter_cond_section(block_representative)
       self.builder.new_cond_branch(block_representative)
       for stmt in node.orelse:
